@@ -425,20 +425,28 @@ var $methodSet = typ => {
 
     var seen = {};
 
+    // Unexported method names of different packages are different names.
+    var key = m => { return m.name + "$" + m.pkg; };
+
     while (current.length > 0) {
         var next = [];
         var mset = [];
+        // Methods declared at this depth which are not part of the method set (pointer
+        // receivers reached without indirection). They still hide deeper methods.
+        var hidden = [];
 
         current.forEach(e => {
-            if (seen[e.typ.string]) {
+            if (seen[e.typ.id]) {
                 return;
             }
-            seen[e.typ.string] = true;
+            seen[e.typ.id] = true;
 
             if (e.typ.named) {
                 mset = mset.concat(e.typ.methods);
                 if (e.indirect) {
                     mset = mset.concat($ptrType(e.typ).methods);
+                } else {
+                    hidden = hidden.concat($ptrType(e.typ).methods);
                 }
             }
 
@@ -459,9 +467,17 @@ var $methodSet = typ => {
             }
         });
 
+        // A name found more than once at the same depth is ambiguous and not promoted.
+        var count = {};
+        mset.concat(hidden).forEach(m => { count[key(m)] = (count[key(m)] || 0) + 1; });
         mset.forEach(m => {
-            if (base[m.name] === undefined) {
-                base[m.name] = m;
+            if (base[key(m)] === undefined) {
+                base[key(m)] = count[key(m)] > 1 ? null : m;
+            }
+        });
+        hidden.forEach(m => {
+            if (base[key(m)] === undefined) {
+                base[key(m)] = null;
             }
         });
 
@@ -470,7 +486,9 @@ var $methodSet = typ => {
 
     typ.methodSetCache = [];
     Object.keys(base).sort().forEach(name => {
-        typ.methodSetCache.push(base[name]);
+        if (base[name] !== null) {
+            typ.methodSetCache.push(base[name]);
+        }
     });
     return typ.methodSetCache;
 };
